@@ -54,3 +54,4 @@ NOT_APPLICABLE = {
  'C18': 'not yet built in this revision (planned: DESIGN.md section 5)',
  'C20': 'not yet built in this revision (planned: DESIGN.md section 5)',
 }
+prop('C06', level='proof', claim='wip', note='wip', explanation='wip')
